@@ -189,7 +189,7 @@ type TypeCfg struct {
 	FieldNames  []string
 }
 
-var DefaultKeyKinds = []string{"string", "string", "int", "int8", "int64", "uint8", "uint32", "uint64", "leaf:NStr", "leaf:NInt"}
+var DefaultKeyKinds = []string{"string", "string", "string", "int", "int8", "int16", "int32", "int64", "uint", "uint8", "uint16", "uint32", "uint64", "uintptr", "leaf:NStr", "leaf:NInt"}
 
 func DefaultTypeCfg() TypeCfg {
 	return TypeCfg{MaxDepth: 4, MaxFields: 6, KeyKinds: DefaultKeyKinds, Tags: true, StringTag: true, Embedded: true, Unexported: true, PtrDepth: 3}
